@@ -48,7 +48,61 @@ def plan(tier, seed):
     # delayed edge under a fixed-step solver (the delay is a buffer there), the delayed term multiplying a state variable
     fam = 'probe:fixed_step_delay_jacobian' if 'fixed_step_delay_jacobian' in opened else 'fixed_step_delay'
     cases += [{'family': fam, 'cseed': rnd.randrange(1 << 30), 'mode': 'fixed_step_delay'} for _ in range(6 if tier == 'quick' else 60)]
+    # powers whose exponent is a parameter (x^a): sympy's derivative a*x**a/x is 0/0 at x = 0; probed AT the zero of the base
+    cases += [{'family': 'symbolic_power', 'cseed': rnd.randrange(1 << 30), 'mode': 'symbolic_power'} for _ in range(8 if tier == 'quick' else 100)]
     return cases
+
+
+def run_symbolic_power_case(case, ctx):
+    """x' = -c*x - k*x^a + z, z' = -z + m*(x - s)^b with whole-number exponents a, b declared as PARAMETERS: the Jacobian must equal
+    central differences of the vector field at random states and at the states x = 0 and x = s, where a base vanishes."""
+    from pyrates import OperatorTemplate, NodeTemplate, CircuitTemplate
+    rnd = random.Random(case['cseed'])
+    c_, k_, m_, s_ = (round(rnd.uniform(0.3, 1.5), 3) for _ in range(4))
+    a_, b_ = float(rnd.choice([2, 3, 4])), float(rnd.choice([2, 3]))
+    x0 = rnd.choice([0.0, 0.0, s_, round(rnd.uniform(0.1, 0.9), 3)])
+    pw = rnd.choice(['^', '**'])
+    mech = {}
+    res = {'features': ['symbolic_power', f'x0_{x0}'], 'risk': [], 'sig': stable_hash([c_, k_, m_, s_, a_, b_, x0, pw]), 'nontrivial': True}
+    eqs = [f"d/dt * x = -c*x - k*x{pw}a + z", f"d/dt * z = -z + m*(x - s){pw}b"]
+    try:
+        def mk():
+            op = OperatorTemplate(name='pw_op', path='none', equations=eqs,
+                                  variables={'x': f'output({x0})', 'z': 'variable(0.2)', 'c': c_, 'k': k_, 'm': m_, 's': s_, 'a': a_, 'b': b_})
+            return CircuitTemplate(name='pw', path='none', nodes={'p': NodeTemplate(name='pw_node', path='none', operators=[op])})
+        kw = dict(step_size=1e-3, solver='scipy', vectorize=False, verbose=False, in_place=False, float_precision='float64')
+        try:
+            f, args, names, smap = mk().get_run_func('vf', clear=True, **kw)
+            J, jargs, jnames, jsmap = mk().get_jacobian_func('jac', clear=True, **kw)
+        except Exception as e:
+            raise observe.Mismatch(f"loud: model with a parameter exponent: {type(e).__name__}: {e}")
+        ix, iz = smap['p/pw_op/x'], smap['p/pw_op/z']
+        if (jsmap['p/pw_op/x'], jsmap['p/pw_op/z']) != (ix, iz):
+            raise observe.Mismatch(f"state ordering of the Jacobian {jsmap} differs from get_run_func's {smap}")
+        pts = [np.asarray(jargs[1], dtype=float).copy()]          # the declared initial state (x0 may be a zero of a base)
+        for xv in (0.0, s_, rnd.uniform(-1.0, 1.5), rnd.uniform(-1.0, 1.5)):
+            y = np.zeros(2)
+            y[ix], y[iz] = xv, rnd.gauss(0, 0.5)
+            pts.append(y)
+
+        def fv(yv):
+            return np.array(f(0.0, yv.copy(), *args[2:]), dtype=float, copy=True).ravel()[:2]
+        for y in pts:
+            h = 1e-5
+            Jfd = np.array([(fv(y + h * np.eye(2)[j]) - fv(y - h * np.eye(2)[j])) / (2 * h) for j in range(2)]).T
+            J0 = np.asarray(J(0.0, y.copy(), *list(jargs)[2:]), dtype=float)
+            if J0.shape != (2, 2) or not np.all(np.isfinite(J0)) or not np.allclose(J0, Jfd, rtol=1e-5, atol=1e-6):
+                raise observe.Mismatch(f"parameter exponents a={a_}, b={b_} ({' ; '.join(eqs)}): J at state x={y[ix]!r}, z={y[iz]!r} is {J0.tolist()}, "
+                                       f"central differences of the vector field give {Jfd.tolist()}")
+            mech['entries_compared'] = mech.get('entries_compared', 0) + 4
+            if y[ix] in (0.0, s_):
+                mech['points_at_zero_of_a_base'] = mech.get('points_at_zero_of_a_base', 0) + 1
+        mech['symbolic_power_models'] = 1
+        res.update(status='ok', symptom='', mech=mech)
+    except observe.Mismatch as e:
+        s2 = str(e)
+        res.update(status='violation', symptom=('silent: ' if 'loud' not in s2 else '') + s2, mech=mech, spec={'eqs': eqs, 'x0': x0})
+    return res
 
 
 def warmup(ctx):
@@ -293,6 +347,8 @@ def run_fixed_step_delay_case(case, ctx):
 def run_case(case, ctx):
     if case.get('mode') == 'fixed_step_delay':
         return run_fixed_step_delay_case(case, ctx)
+    if case.get('mode') == 'symbolic_power':
+        return run_symbolic_power_case(case, ctx)
     if case.get('family') == 'inputs':
         return run_input_case(case, ctx)
     if case.get('family') == 'auto_jacobian':
